@@ -13,6 +13,10 @@
 //!   `skip <hex> <pos> <end>`  `ParsedName::skip`: `ok <pos after>` | `err <kind>`
 //!   `txt <hex>`           `MdnsTxt` over raw TXT record data: `[k=v,…]`
 //!   `q <labels> <rtype>`  `build_query`, then `parse_into_answer` on it: `<bytes hex> <dec answer>`
+//!   `svc c <id> <disc> <enhanced> <vid> <pid> <sai|-> <sii|-> <dn> <pi> <ph> <dt|-> <tcp> <icd -|0|1> <port> <cap>`
+//!   `svc o <compressed fabric id> <node id> <sai|-> <sii|-> <tcp> <icd> <port> <cap>`
+//!        `MatterLocalService::service` (the name, subtypes and TXT pairs a Matter node publishes) with a `cap`-byte
+//!        scratch buffer: `ok <name> <service> <protocol> <port> [sub,…] [k=v,…]` | `err BufferTooSmall`
 //! Everything runs under `catch_unwind` on a helper thread with a watchdog (`timeout`).
 use super::{edge, errname, guard, mutate, num};
 use crate::proto::{hex, unhex, Out};
@@ -20,7 +24,9 @@ use crate::rng::Rng;
 
 use rs_matter::transport::network::mdns::builtin::verif_query as hooks;
 use rs_matter::transport::network::mdns::builtin::{parse_into_answer, Host};
+use rs_matter::dm::clusters::basic_info::{BasicInfoConfig, PairingHintFlags};
 use rs_matter::transport::network::mdns::MdnsLocalService;
+use rs_matter::transport::network::MatterLocalService;
 use rs_matter::transport::network::{IpAddr, Ipv4Addr, Ipv6Addr};
 
 use std::sync::mpsc;
@@ -225,8 +231,91 @@ pub fn run(op: &str) -> String {
             }
             format!("{} {}", enc, dec(unhex(&enc), None))
         }
+        Some("svc") => svc(it),
         _ => "badop".into(),
     }
+}
+
+fn optnum(s: Option<&str>) -> Option<u64> {
+    s.and_then(|x| x.parse::<u64>().ok())
+}
+
+fn svc(mut it: std::str::SplitWhitespace) -> String {
+    let kind = it.next().unwrap_or("");
+    let (local, dn, pi, vid, pid, sai, sii, ph, dt, tcp);
+    match kind {
+        "c" => {
+            let id = num(it.next());
+            let disc = num(it.next()) as u16;
+            let enhanced = num(it.next()) != 0;
+            vid = num(it.next()) as u16;
+            pid = num(it.next()) as u16;
+            sai = optnum(it.next()).map(|x| x as u32);
+            sii = optnum(it.next()).map(|x| x as u32);
+            let Some(d) = utf8(it.next().unwrap_or("-")) else { return "badutf8".into() };
+            let Some(p) = utf8(it.next().unwrap_or("-")) else { return "badutf8".into() };
+            dn = d;
+            pi = p;
+            ph = num(it.next()) as u32;
+            dt = optnum(it.next()).map(|x| x as u16);
+            tcp = num(it.next()) != 0;
+            local = MatterLocalService::Commissionable { id, discriminator: disc, enhanced };
+        }
+        "o" => {
+            let cfid = num(it.next());
+            let node = num(it.next());
+            vid = 0;
+            pid = 0;
+            sai = optnum(it.next()).map(|x| x as u32);
+            sii = optnum(it.next()).map(|x| x as u32);
+            dn = String::new();
+            pi = String::new();
+            ph = 0;
+            dt = None;
+            tcp = num(it.next()) != 0;
+            local = MatterLocalService::Commissioned { compressed_fabric_id: cfid, node_id: node };
+        }
+        _ => return "badop".into(),
+    }
+    let icd = match it.next() {
+        Some("0") => Some(false),
+        Some("1") => Some(true),
+        _ => None,
+    };
+    let port = num(it.next()) as u16;
+    let cap = (num(it.next()) as usize).min(4096);
+    watchdog(move || {
+        let dd = BasicInfoConfig {
+            vid,
+            pid,
+            sai,
+            sii,
+            device_name: &dn,
+            pairing_instruction: &pi,
+            pairing_hint: PairingHintFlags::from_bits_retain(ph),
+            device_type: dt,
+            tcp_supported: tcp,
+            ..Default::default()
+        };
+        let mut buf = vec![0u8; cap];
+        let res = match local.verif_service(&dd, port, icd, &mut buf) {
+            Ok((s, _)) => {
+                let subs: Vec<String> = s.service_subtypes.clone().map(|x| hex(x.as_bytes())).collect();
+                let txt: Vec<String> = s.txt_kvs.clone().map(|(k, v)| format!("{}={}", hex(k.as_bytes()), hex(v.as_bytes()))).collect();
+                format!(
+                    "ok {} {} {} {} [{}] [{}]",
+                    hex(s.name.as_bytes()),
+                    hex(s.service.as_bytes()),
+                    hex(s.protocol.as_bytes()),
+                    s.port,
+                    subs.join(","),
+                    txt.join(",")
+                )
+            }
+            Err(e) => errname(&e),
+        };
+        res
+    })
 }
 
 // ------------------------------------------------------------------ generator
@@ -771,9 +860,67 @@ fn gen_case(r: &mut Rng, out: &mut Out) -> Vec<String> {
             out.stat("mdns2_case_names", 1);
             ops = gen_name_ops(r, out);
         }
-        8 => {
+        8 if r.chance(1, 2) => {
             out.stat("mdns2_case_txt", 1);
             ops = gen_txt_ops(r, out);
+        }
+        9 => {
+            out.stat("mdns2_case_service", 1);
+            // what a Matter node publishes, then the same description through the real encoder and parser
+            let opt32 = |r: &mut Rng| if r.chance(1, 2) { "-".to_string() } else { edge(r, 32).to_string() };
+            let icd = (*r.pick(&["-", "0", "1"])).to_string();
+            let cap = if r.chance(1, 8) { r.below(120) } else { 1024 };
+            let op = if r.chance(2, 3) {
+                let dnl = *r.pick(&[0usize, 1, 8, 32]);
+                let pil = *r.pick(&[0usize, 1, 16, 128]);
+                let dn = utf8_value(r, dnl);
+                let pi = utf8_value(r, pil);
+                let dt = if r.chance(1, 2) { "-".to_string() } else { edge(r, 16).to_string() };
+                format!(
+                    "svc c {} {} {} {} {} {} {} {} {} {} {} {} {} {} {}",
+                    edge(r, 64),
+                    edge(r, 16),
+                    r.below(2),
+                    edge(r, 16),
+                    edge(r, 16),
+                    opt32(r),
+                    opt32(r),
+                    hex(&dn),
+                    hex(&pi),
+                    edge(r, 32),
+                    dt,
+                    r.below(2),
+                    icd,
+                    edge(r, 16),
+                    cap
+                )
+            } else {
+                format!("svc o {} {} {} {} {} {} {} {}", edge(r, 64), edge(r, 64), opt32(r), opt32(r), r.below(2), icd, edge(r, 16), cap)
+            };
+            let res = super::run_op("mdns2", &op);
+            ops.push(op);
+            let w: Vec<&str> = res.split_whitespace().collect();
+            if w.len() == 7 && w[0] == "ok" {
+                let strip = |x: &str| x.trim_start_matches('[').trim_end_matches(']').to_string();
+                let subs = strip(w[5]);
+                let txt = strip(w[6]);
+                let host = label(r, 12);
+                let rt = format!(
+                    "rt {} {} {} {} {} {} {} {} {} {} {} 9000",
+                    w[1],
+                    w[2],
+                    w[3],
+                    w[4],
+                    hex(&host),
+                    hex(&r.bytes(4)),
+                    hex(&r.bytes(16)),
+                    if txt.is_empty() { "-".into() } else { txt },
+                    if subs.is_empty() { "-".into() } else { subs },
+                    edge(r, 32),
+                    edge(r, 32)
+                );
+                ops.push(rt);
+            }
         }
         _ => {
             out.stat("mdns2_case_misc", 1);
